@@ -60,6 +60,40 @@ func vEventsEqual(got, want []vEv) bool {
 	return true
 }
 
+// vSameValueBag: the values carried by the Next notifications, all positions flattened, form the
+// same multiset in both traces.
+func vSameValueBag(got, want []vEv) bool {
+	var a, b []int64
+	for _, e := range got {
+		if e.kind == vkNext {
+			a = append(a, e.vals...)
+		}
+	}
+	for _, e := range want {
+		if e.kind == vkNext {
+			b = append(b, e.vals...)
+		}
+	}
+	if len(a) != len(b) {
+		return false
+	}
+	used := make([]bool, len(b))
+	for _, x := range a {
+		ok := false
+		for j, y := range b {
+			if !used[j] && x == y {
+				used[j] = true
+				ok = true
+				break
+			}
+		}
+		if !ok {
+			return false
+		}
+	}
+	return true
+}
+
 // vConcSel restricts vC05Conc to the named entries (nil = all two-source entries); used for the
 // deeper (P >= 1) jobs, whose schedule space would otherwise exhaust the path budget.
 var vConcSel []string
@@ -119,6 +153,20 @@ func vC05Conc(maxVals int) {
 			class = " [a source fails]"
 		}
 	}
+	if !found {
+		// a finer class for the listed findings: is it only the order / the terminal that no arrival
+		// order explains, or do the delivered values themselves (as a multiset) match no arrival order?
+		same := false
+		for _, order := range vMerges(scripts[0], scripts[1]) {
+			if vSameValueBag(rec.evs, op.ref(c, order)) {
+				same = true
+				break
+			}
+		}
+		if !same {
+			class += " {values lost, duplicated or invented}"
+		}
+	}
 	vAssert(found, op.name+": the output under concurrent sources is not the definition's output for any compatible arrival order"+class)
 	vReach("end")
 }
@@ -147,3 +195,63 @@ func vhC05_conczip_v2() {
 	vConcSel = []string{"ZipWith1", "Zip2", "Zip", "ZipAll(Just)", "CombineLatestWith1", "MergeWith1", "RaceWith"}
 	vC05Conc(2)
 }
+
+// C05 (window-when, re-entrant producer): the consumer of the windows feeds the source from inside
+// a window's completion callback (a feedback loop in one goroutine).  A value emitted while window
+// k is being closed belongs to window k+1; no value may fall between two windows.
+func vC05WindowReentrant(n int) {
+	src, bnd := &vProbe{name: "src"}, &vProbe{name: "bnd"}
+	var windows [][]int64
+	closed := 0
+	next := int64(1)
+	feedAt := vChoice("feedAt", n+1) // the completion of which window feeds the source (n: none)
+	var sent []int64
+	WindowWhen[int64, int64](bnd)(src).SubscribeWithContext(context.Background(), NewObserver(
+		func(w Observable[int64]) {
+			idx := len(windows)
+			windows = append(windows, nil)
+			w.SubscribeWithContext(context.Background(), NewObserver(
+				func(v int64) { windows[idx] = append(windows[idx], v) },
+				func(error) {},
+				func() {
+					closed++
+					if idx == feedAt && src.live > 0 {
+						v := next
+						next++
+						sent = append(sent, v)
+						src.emit(vStep{vkNext, v})
+					}
+				},
+			))
+		},
+		func(error) {},
+		func() {},
+	))
+	for i := 0; i < n; i++ {
+		if vChoice("val"+vItoa(i), 2) == 1 && src.live > 0 {
+			v := next
+			next++
+			sent = append(sent, v)
+			src.emit(vStep{vkNext, v})
+		}
+		if bnd.live > 0 {
+			bnd.emit(vStep{vkNext, 0})
+		}
+	}
+	if src.live > 0 {
+		src.emit(vStep{kind: vkComplete})
+	}
+	var flat []int64
+	for _, w := range windows {
+		flat = append(flat, w...)
+	}
+	vAssert(len(flat) == len(sent), "WindowWhen: a source value appears in no window (or in two) when the source is fed from inside a window's completion callback")
+	for i := range flat {
+		vAssert(flat[i] == sent[i], "WindowWhen: the windows do not partition the source values in order")
+	}
+	vAssert(closed == len(windows), "WindowWhen: a window was never closed")
+	vReach("end")
+}
+
+func vhC05_windowreentrant_n2() { vC05WindowReentrant(2) }
+func vhC05_windowreentrant_n3() { vC05WindowReentrant(3) }
